@@ -3,7 +3,7 @@ import copy
 
 
 def conc(name, src, threads, R, cflags=(), pre=('prologue',), post=('epilogue',), tso=0, unwind=3, desc='', wit=None,
-         solo_order=None, live=True, safe=True, live_R=None, timeout=900, extra=None, nslots=None, faults=0, post_unwind=12, unwind_fn=None):
+         solo_order=None, live=True, safe=True, live_R=None, timeout=900, extra=None, nslots=None, faults=0, post_unwind=70, unwind_fn=None):
     """A concurrent obligation = up to two solver queries over the same encoding:
        <name>.safe : R symbolic rounds, executions in which every thread has finished (assume), then the oracle (post)
        <name>.live : R symbolic rounds, then a solo phase in which each thread in turn runs unpreempted until it finishes,
